@@ -337,7 +337,10 @@ func scenarios(tier string, yield func(any) bool) {
 	}
 	hdrs = append(hdrs, Hdr{V: 1, Fam: "UNKNOWN", TLV: -1}, Hdr{V: 2, Cmd: "LOCAL", Fam: "UNSPEC", TLV: -1}, Hdr{V: 2, Cmd: "LOCAL", Fam: "UNSPEC", TLV: 5},
 		Hdr{V: 2, Cmd: "PROXY", Fam: "UNSPEC", TLV: 0}, Hdr{V: 2, Cmd: "LOCAL", Fam: "TCP4", Src: "10.1.1.1", Dst: "10.2.2.2", SPort: 7, DPort: 8, TLV: -1})
-	allows := [][]string{nil, {"192.0.2.0/24"}, {"10.0.0.0/8"}, {"192.0.2.0/24", "192.0.2.7/32"}, {"2001:db8::/32"}}
+	allows := [][]string{nil, {"192.0.2.0/24"}, {"10.0.0.0/8"}, {"192.0.2.0/24", "192.0.2.7/32"}, {"2001:db8::/32"},
+		// nested subnets that share their network address: the peer is only inside the wider one
+		{"192.0.0.0/24", "192.0.0.0/16"}, {"192.0.0.0/16", "192.0.0.0/24"}, {"2001:db8::/126", "2001:db8::/32"}, {"10.0.0.0/8", "10.0.0.0/12"}}
+	nested := func(al []string) bool { return len(al) == 2 && al[1] != "192.0.2.7/32" }
 	peers := []string{"192.0.2.7:50000", "[2001:db8::9]:50000"}
 	for _, h := range hdrs {
 		hl := len(h.Encode())
@@ -348,6 +351,9 @@ func scenarios(tier string, yield func(any) bool) {
 					continue
 				}
 				for _, pl := range pays {
+					if nested(al) && pl != 0 && pl != 5 {
+						continue
+					}
 					for _, need := range []int{0, 5000} {
 						if need > 0 && (pl < 5000 || len(al) > 1) {
 							continue
@@ -389,7 +395,7 @@ func main() {
 	runner.Main(&runner.Harness{
 		ID:          "C12",
 		Level:       "model_checking",
-		Rule:        "PROXY headers from an independent encoder (v1 TCP4/TCP6/UNKNOWN; v2 PROXY/LOCAL x TCP4/UDP4/TCP6/UDP6/UNSPEC, TLV blocks of 0/1/255 bytes; boundary addresses and ports) x payloads {0,1,5, chunk-hdr+-1, 4096-hdr+-1, 6000 bytes} x allow lists {none, contains peer, excludes peer, overlapping prefixes, IPv6} x IPv4/IPv6 peer x optional matcher forcing >4096 prefetched bytes; every split point for streams <=22 bytes, read deviations <=3 up to 40 bytes and <=2 (3 thorough) from a boundary menu beyond; real matcher + handler in a real route list followed by a remote_ip matcher for the declared source",
+		Rule:        "PROXY headers from an independent encoder (v1 TCP4/TCP6/UNKNOWN; v2 PROXY/LOCAL x TCP4/UDP4/TCP6/UDP6/UNSPEC, TLV blocks of 0/1/255 bytes; boundary addresses and ports) x payloads {0,1,5, chunk-hdr+-1, 4096-hdr+-1, 6000 bytes} x allow lists {none, contains peer, excludes peer, overlapping prefixes, nested subnets sharing their network address in both orders, IPv6} x IPv4/IPv6 peer x optional matcher forcing >4096 prefetched bytes; every split point for streams <=22 bytes, read deviations <=3 up to 40 bytes and <=2 (3 thorough) from a boundary menu beyond; real matcher + handler in a real route list followed by a remote_ip matcher for the declared source",
 		Assumptions: []string{"the send side (proxy handler writing a header to upstreams) and the sender->receiver composition are checked by the second part of this check"},
 		Scenarios:   scenarios,
 		Run: func(tier string, scAny any, rep *runner.Report) {
